@@ -11,7 +11,7 @@ let admin_s = "ADMINTOKEN0000000000000000000000"
 let user_s = "USERTOKEN00000000000000000000000"
 let revoked_s = "REVOKEDTOKEN00000000000000000000"
 let unknown_s = "UNKNOWNTOKEN00000000000000000000"
-let table = [coq_of_string user_s]
+let table0 = [coq_of_string user_s]
 
 let pct_decode (s : string) : string =
   let b = Buffer.create (Stdlib.String.length s) in
@@ -37,7 +37,7 @@ let subst adm t =
     (fun s -> match Str.matched_string s with
        | "$A" -> adm | "$U" -> user_s | "$R" -> revoked_s | _ -> unknown_s) t
 
-type case = { auth : bool; prof : bool; met : bool; fail : bool; over : string; admin : String0.string;
+type case = { auth : bool; prof : bool; met : bool; fail : bool; empty : bool; over : string; admin : String0.string;
               meth : string; path : string; hdr : string }
 
 (* "<a><p><m>[f][~T][@admin]" *)
@@ -51,13 +51,15 @@ let parse_cfg (cf : string) =
       | None -> cf, admin_s in
     let flags = Stdlib.String.sub cf 0 3 and rest = Stdlib.String.sub cf 3 (Stdlib.String.length cf - 3) in
     let fail, rest = if rest <> "" && rest.[0] = 'f' then true, Stdlib.String.sub rest 1 (Stdlib.String.length rest - 1) else false, rest in
+    (* 'e': no token has been issued (the tokens table is empty; $U and $R are never issued values then) *)
+    let empty, rest = if rest <> "" && rest.[0] = 'e' then true, Stdlib.String.sub rest 1 (Stdlib.String.length rest - 1) else false, rest in
     (* "~T": overlap produced above the repository, "~sT": below it (slow SQL); the model does not distinguish them *)
     let over = if Stdlib.String.length rest = 2 && rest.[0] = '~' then Some (Stdlib.String.sub rest 1 1)
       else if Stdlib.String.length rest = 3 && rest.[0] = '~' && rest.[1] = 's' then Some (Stdlib.String.sub rest 2 1)
       else if rest = "" then Some "" else None in
     match over with
     | None -> None
-    | Some over -> Some (flags.[0] = '1', flags.[1] = '1', flags.[2] = '1', fail, over, adm)
+    | Some over -> Some (flags.[0] = '1', flags.[1] = '1', flags.[2] = '1', fail, empty, over, adm)
 
 (* "cfg=<a><p><m> <METHOD> <pattern> H-" | "... H=<template>" *)
 let parse (input : string) : case option =
@@ -80,12 +82,19 @@ let parse (input : string) : case option =
           else
             (match parse_cfg (Stdlib.String.sub cfg 4 (Stdlib.String.length cfg - 4)) with
              | None -> None
-             | Some (auth, prof, met, fail, over, adm) ->
+             | Some (auth, prof, met, fail, empty, over, adm) ->
                let hdr = if h = "H-" then Some "" (* absent: c.GetHeader returns "" *)
                  else if h.[1] = '=' then Some (subst adm (Stdlib.String.sub h 2 (Stdlib.String.length h - 2))) else None in
                (match hdr with
                 | None -> None
-                | Some hdr -> Some { auth; prof; met; fail; over; admin = coq_of_string adm; meth; path; hdr }))))
+                | Some hdr -> Some { auth; prof; met; fail; empty; over; admin = coq_of_string adm; meth; path; hdr }))))
+
+let tbl c = if c.empty then [] else table0
+
+(* "WSCHK": the token check of the websocket connect handler applied to the token of "Bearer <token>" *)
+let ws_token c =
+  let h = c.hdr in
+  if Stdlib.String.length h >= 7 && Stdlib.String.sub h 0 7 = "Bearer " then Some (Stdlib.String.sub h 7 (Stdlib.String.length h - 7)) else None
 
 let is_raw m = Stdlib.String.length m > 4 && Stdlib.String.sub m 0 4 = "RAW."
 let raw_method m = match Stdlib.String.index_opt m ':' with
@@ -107,25 +116,29 @@ let model input =
   match parse input with
   | None -> "BAD-INPUT"
   | Some c when c.meth = "SETUP" -> "SETUP-OK"   (* every fixture step succeeds on a correct implementation *)
+  | Some c when c.meth = "WSCHK" ->
+    (match ws_token c with
+     | None -> "BAD-INPUT"
+     | Some t -> if not c.auth || (match Tokens.get_token c.admin (tbl c) (coq_of_string t) with Tokens.NoTok -> false | _ -> true) then "ws:ok" else "ws:no")
   | Some c when is_raw c.meth ->
     (* non-canonical spelling of the route's path: the model has no opinion on routing (404 / 301 / 307 / 400 / 401 are
        all fine); a request whose credential is not accepted never gets a 2xx and never changes a table *)
     let c = { c with meth = raw_method c.meth } in
-    if Auth.spec_reaches c.auth c.admin table (route c) (coq_of_string c.hdr) then "UNPREDICTED-accepted-credential"
+    if Auth.spec_reaches c.auth c.admin (tbl c) (route c) (coq_of_string c.hdr) then "UNPREDICTED-accepted-credential"
     else "refused unchanged"
   | Some c ->
     let admin = c.admin in
     let r = route c in
     let fg =
       if Auth.under_api r then
-        (match Auth.decide c.auth admin (Auth.visible (not c.fail) table) (Auth.needs_admin r) (coq_of_string c.hdr) with
+        (match Auth.decide c.auth admin (Auth.visible (not c.fail) (tbl c)) (Auth.needs_admin r) (coq_of_string c.hdr) with
          | Auth.Reached -> "pass"
          | Auth.Denied e -> "401 " ^ err_s e ^ " unchanged")
       else "pass"   (* routes outside the API group carry no authentication middleware *) in
     if c.over = "" then fg
     else
       (* every verdict depends on its own credential only: the held request is decided as if it were alone *)
-      fg ^ " bg=" ^ (match Auth.decide c.auth admin (Auth.visible (not c.fail) table) false (held_hdr c) with
+      fg ^ " bg=" ^ (match Auth.decide c.auth admin (Auth.visible (not c.fail) (tbl c)) false (held_hdr c) with
           | Auth.Reached -> "pass"
           | Auth.Denied e -> "401:" ^ err_s e)
 
@@ -134,9 +147,20 @@ let spec input obs =
   | None -> "FAIL malformed-input"
   | Some c when c.meth = "SETUP" ->
     if obs = "SETUP-OK" then "OK" else "FAIL fixture-step-failed " ^ obs
+  | Some c when c.meth = "WSCHK" ->
+    (match ws_token c with
+     | None -> "FAIL malformed-input"
+     | Some t ->
+       (* declaratively: accepted iff the token is the admin token or one of the issued tokens *)
+       let ok = not c.auth || string_of_coq c.admin = t || Stdlib.List.exists (fun u -> string_of_coq u = t) (tbl c) in
+       (match obs, ok with
+        | "ws:ok", true | "ws:no", false -> "OK"
+        | "ws:ok", false -> "FAIL websocket-check-accepts-non-credential"
+        | "ws:no", true -> "FAIL valid-credential-rejected websocket check"
+        | _ -> "FAIL malformed-observable " ^ obs))
   | Some c when is_raw c.meth ->
     let c' = { c with meth = raw_method c.meth } in
-    if Auth.spec_reaches c'.auth c'.admin table (route c') (coq_of_string c'.hdr) then "FAIL malformed-input spelling case with an accepted credential"
+    if Auth.spec_reaches c'.auth c'.admin (tbl c') (route c') (coq_of_string c'.hdr) then "FAIL malformed-input spelling case with an accepted credential"
     else (match words obs with
         | ["refused"; "unchanged"] -> "OK"
         | [_; ch] when ch <> "unchanged" -> "FAIL state-changed-on-rejected-request " ^ ch ^ " (non-canonical path)"
@@ -152,7 +176,7 @@ let spec input obs =
       else match Stdlib.List.rev w0 with
         | last :: rest_rev when Stdlib.String.length last > 3 && Stdlib.String.sub last 0 3 = "bg=" ->
           let got = Stdlib.String.sub last 3 (Stdlib.String.length last - 3) in
-          let must = Auth.spec_reaches c.auth admin table (coq_of_string "GET", coq_of_string "/api/v1/access") (held_hdr c) in
+          let must = Auth.spec_reaches c.auth admin (tbl c) (coq_of_string "GET", coq_of_string "/api/v1/access") (held_hdr c) in
           let ok = if must then got = "pass" else Stdlib.String.length got > 4 && Stdlib.String.sub got 0 4 = "401:" in
           (if ok then None else Some ("FAIL overlap-interference held request: " ^ got)),
           Stdlib.String.concat " " (Stdlib.List.rev rest_rev)
@@ -164,8 +188,8 @@ let spec input obs =
       (* token store failing: what must still be refused is decided with the real table (nothing may be admitted
          that a working store refuses); what must still be reached is decided with the empty table (the admin
          token); an issued token may be refused while its lookup fails (fail closed) *)
-      let may_reach = Auth.spec_reaches c.auth admin table r (coq_of_string c.hdr) in
-      let must_reach = Auth.spec_reaches c.auth admin (Auth.visible (not c.fail) table) r (coq_of_string c.hdr) in
+      let may_reach = Auth.spec_reaches c.auth admin (tbl c) r (coq_of_string c.hdr) in
+      let must_reach = Auth.spec_reaches c.auth admin (Auth.visible (not c.fail) (tbl c)) r (coq_of_string c.hdr) in
       let w = words obs in
       if c.fail && may_reach && not must_reach then
         (match w with ["pass"] | ["401"; _; "unchanged"] -> "OK" | _ -> "FAIL malformed-observable " ^ obs)
@@ -174,7 +198,7 @@ let spec input obs =
       | true, ["pass"] -> "OK"
       | true, _ -> if c.auth then "FAIL valid-credential-rejected " ^ obs else "FAIL auth-disabled-route-rejected " ^ obs
       | false, ["pass"] ->
-        if Auth.needs_admin r && Auth.spec_reaches c.auth admin table (coq_of_string "GET", snd r) (coq_of_string c.hdr)
+        if Auth.needs_admin r && Auth.spec_reaches c.auth admin (tbl c) (coq_of_string "GET", snd r) (coq_of_string c.hdr)
         then "FAIL non-admin-reached-admin-route" else "FAIL unauthenticated-request-reached-handler"
       | false, ["401"; "UNSTRUCTURED"; "unchanged"] -> "FAIL unstructured-401"
       | false, ["401"; _; "unchanged"] -> "OK"
